@@ -23,7 +23,6 @@ class MainModel:
         self.loop: ast.While = loops[0]
         self.sf = self._assigned_from("prepare_scalar_function")
         self.istate = self._assigned_from("InternalState")
-        self.x = self._assigned_from("clip2bounds")
         bt = self._tuple_assigned_from("get_bounds", 2)
         self.lb, self.ub = bt
         self.X, self.G = self._tuple_assigned_from("initialize_X_and_G", 2)
@@ -41,6 +40,10 @@ class MainModel:
         self.callback_calls = cbs
         self.final_return = self.returns[-1]
         need(self.final_return in fn.body, f"{ENTRY}: last return is not at function level")
+        fr = self.result_of_return(self.final_return)
+        need(fr is not None and kw(fr, "x") is not None, f"{ENTRY}: final return does not build a result with x=")
+        from ..core import uncopy, src as _src
+        self.x = _src(uncopy(kw(fr, "x")))
 
     def _assigned_from(self, callee: str) -> str:
         for s in walk_no_nested(self.f.node):
